@@ -115,6 +115,22 @@ func c02(r *ev.Run) {
 		}
 		return totpGen(c, key)
 	})
+	r.Scenario("zero-period-validation", func(raw []byte) (string, string) {
+		c := unjson[c02Case](raw) // Digits carries the step distance of the submitted code
+		_, key := ref.B32Classify(c.Secret)
+		dist := int64(c.Digits)
+		code := ref.HOTP(key, uint64(int64(ref.Step(c.Unix, 30))+dist), 6, 0)
+		want := dist >= -int64(c.Skew) && dist <= int64(c.Skew)
+		var ok bool
+		var err error
+		pn := try(func() {
+			ok, err = otp.ValidateTOTP(c.Secret, code, time.Unix(c.Unix, 0), &otp.Param{Digits: 6, Period: uint(c.Period), Skew: uint(c.Skew)})
+		})
+		if pn != "" || ok != want {
+			return fmt.Sprint(ok, errStr(err), pn), fmt.Sprintf("want %v", want)
+		}
+		return fmt.Sprint(ok), ""
+	})
 	r.Scenario("totp-generate-history", func(raw []byte) (string, string) {
 		emptySyncPools()
 		obs := ""
@@ -306,6 +322,37 @@ func c02(r *ev.Run) {
 			r.Eval(local)
 		})
 		r.Set("key_length_sweep_calls", kn.Load())
+	}
+	// "a zero period means 30 s in generation exactly as in validation": with period 0 and with period 30, windows 0..2,
+	// the codes of the steps -3..+3 get the same verdicts, and those are the reference verdicts
+	{
+		key := keys[0]
+		sec := spellings(key)[0]
+		var zn int64
+		for _, t := range []int64{59, 1111111109, 1699165800} {
+			st := ref.Step(t, 30)
+			for sk := uint(0); sk <= 2; sk++ {
+				for dist := int64(-3); dist <= 3; dist++ {
+					if int64(st)+dist < 0 {
+						continue
+					}
+					code := ref.HOTP(key, uint64(int64(st)+dist), 6, 0)
+					want := dist >= -int64(sk) && dist <= int64(sk)
+					for _, per := range []uint{0, 30} {
+						var ok bool
+						var err error
+						pn := try(func() {
+							ok, err = otp.ValidateTOTP(sec, code, time.Unix(t, 0), &otp.Param{Digits: 6, Period: per, Skew: sk})
+						})
+						zn++
+						if pn != "" || ok != want {
+							r.Fail("zero-period-validation", fmt.Sprintf("t=%d skew=%d step%+d period=%d: got %v %s %s, want %v", t, sk, dist, per, ok, errStr(err), pn, want), c02Case{Secret: sec, Unix: t, Period: uint64(per), Skew: uint64(sk), Digits: int(dist)}, fmt.Sprint(want), fmt.Sprint(ok, errStr(err), pn))
+						}
+					}
+				}
+			}
+		}
+		r.Eval(zn)
 	}
 	// real time zones: every half hour (and the second before) of three years in each zone, i.e. across every
 	// daylight-saving transition, repeated and skipped wall-clock hour: the code depends on the instant only
